@@ -1326,8 +1326,9 @@ class DocutilsRenderer(RendererProtocol):
                 if not isinstance(value, str | int | float | date | datetime):
                     value = json.dumps(value, default=str)
                 value = str(value)
-            except ValueError as error:
-                # e.g. an integer beyond Python's limit for int -> str conversion
+            except (ValueError, TypeError) as error:
+                # e.g. an integer beyond Python's limit for int -> str conversion,
+                # or a nested mapping whose keys JSON cannot express (a date)
                 self.create_warning(
                     f"front matter value of {key!r} cannot be shown: {error}",
                     MystWarnings.MD_TOPMATTER,
